@@ -32,6 +32,10 @@ func (s *Sel) apiMethod(name string) *ssa.Function {
 func runC08(c *Ctx) {
 	p := c.P
 	s := p.Selectors()
+	{
+		roots := p.reachableFrom(s.apiMethod("StartProcess"), s.apiMethod("StopProcess"), s.apiMethod("RestartProcess"), s.apiMethod("StopProcesses"))
+		s.checkErrorsNotSwallowed(c, "errors-not-swallowed", func(f *ssa.Function) bool { return roots[f] && inPkgs("app")(f) }, "a failed start/stop/restart would be reported as done")
+	}
 	s.checkFailedShutdownCommandKills(c)
 	s.checkDaemonRelease(c, "daemon-released-after-configured-stop")
 	ls := p.Locksets(s.Runner)
